@@ -709,6 +709,8 @@ def check(rep, tier):
     statecensus.obligations(rep, 'C10', 'planner')
     from vlib import walkerdep
     walkerdep.obligations(rep, tier, 'C10')
+    from vlib import userdep
+    userdep.obligations(rep, tier, 'C10', which=('info',))
     rep.dropped = 'method bodies read with ast.parse; nested callback executed as a closure'
     rep.assume('str.lower is an idempotent function (uninterpreted)', 'planner.databases holds lower-cased names (C10.init)',
                'routing over table positions relies on query_traversal (C13 findings inherited)')
